@@ -136,8 +136,40 @@ func runC09(c *Ctx) {
 			return g.U.ToBool(r) == g.U.Atom(g.U.Field(p, "Whitelist", types.Typ[types.Bool]))
 		}
 		bad := ""
+		g2 := NewGate(c.P)
+		g2.Inline = inlineOnly()
+		s2 := g2.Eval(dr)
+		u2 := g2.U
 		seen := map[ssa.Value]bool{}
 		var walk func(v ssa.Value)
+		// filtered in place: a slice built by appending, to an empty prefix x[:0] (or nil), only
+		// elements that are not exception rules
+		inPlace := func(v ssa.Value) bool {
+			ems, bases := traceAppends(g2, AV{s2, v})
+			if len(ems) == 0 {
+				return false
+			}
+			for _, em := range ems {
+				if len(em.Elems) != 1 {
+					return false
+				}
+				w := u2.Atom(u2.Field(em.Elems[0], "Whitelist", types.Typ[types.Bool]))
+				if !u2.bdd.Implies(em.RC, u2.bdd.Not(w)) {
+					bad = c.P.Pos(em.Call.Pos()) + ": an exception rule (Whitelist) can be appended to the result"
+					return true
+				}
+			}
+			for _, b := range bases {
+				if sl, ok := b.V.(*ssa.Slice); ok && sl.High != nil && isConstInt(sl.High, 0) {
+					continue // x[:0]: no elements
+				}
+				if b.Act != s2 {
+					return false
+				}
+				walk(b.V)
+			}
+			return true
+		}
 		walk = func(v ssa.Value) {
 			if v == nil || seen[v] || bad != "" {
 				return
@@ -149,11 +181,20 @@ func runC09(c *Ctx) {
 					bad = "non-nil constant result"
 				}
 			case *ssa.Phi:
+				if inPlace(x) {
+					return
+				}
 				for _, e := range x.Edges {
 					walk(e)
 				}
 			case *ssa.Call:
 				cal := x.Call.StaticCallee()
+				if b, ok := x.Call.Value.(*ssa.Builtin); ok && b.Name() == "append" {
+					if !inPlace(x) {
+						bad = "UNDECIDED: result built by an append that is not a filter of single elements"
+					}
+					return
+				}
 				switch {
 				case cal == rme:
 					walk(x.Call.Args[0])
@@ -501,6 +542,12 @@ func runC09(c *Ctx) {
 				if cal == rme || (cal != nil && strings.HasPrefix(calleeName(cal), "slices.Delete")) {
 					return src(x.Call.Args[0], depth+1)
 				}
+				if b, ok := x.Call.Value.(*ssa.Builtin); ok && b.Name() == "append" {
+					// the result lies in the operand's array or in a new one
+					return src(x.Call.Args[0], depth+1)
+				}
+			case *ssa.Slice:
+				return src(x.X, depth+1)
 			case *ssa.Const:
 				return x.Value == nil
 			}
@@ -509,7 +556,11 @@ func runC09(c *Ctx) {
 		eachInstr(dr, func(_ *ssa.BasicBlock, in ssa.Instruction) {
 			if cl, ok := in.(*ssa.Call); ok {
 				cal := cl.Call.StaticCallee()
-				if cal == rme || (cal != nil && strings.HasPrefix(calleeName(cal), "slices.Delete")) {
+				isClear := false
+				if b, ok := cl.Call.Value.(*ssa.Builtin); ok && b.Name() == "clear" {
+					isClear = true
+				}
+				if cal == rme || isClear || (cal != nil && strings.HasPrefix(calleeName(cal), "slices.Delete")) {
 					if !src(cl.Call.Args[0], 0) {
 						bad = c.P.Pos(cl.Pos()) + ": an in-place operation is applied to a slice that does not come from DNSRewritesAll()"
 					}
